@@ -102,7 +102,15 @@ let handle_absearch line args obs =
     let c = parse_cfg cfgtoks in
     let p0 = parse_pos ptok and t0 = n_of_int (int_of_string turn) in
     let hist = if htok = "-" then [] else List.map parse_move (split_on ';' htok) in
-    let (g, sg) = setup zt p0 t0 (int_of_string np) (int_of_string fm) hist in
+    let (g, sg0) = setup zt p0 t0 (int_of_string np) (int_of_string fm) hist in
+    let sgr = ref sg0 in
+    (* then=k:m;m;.. : moves played (table kept) before search number k *)
+    let then_at, then_moves =
+      (match List.find_opt (fun t -> String.length t > 5 && String.sub t 0 5 = "then=") cfgtoks with
+       | Some t -> (match split_on ':' (String.sub t 5 (String.length t - 5)) with
+           | [k; ms] -> (int_of_string k, List.map parse_move (split_on ';' ms))
+           | _ -> failwith "bad then=")
+       | None -> (-1, [])) in
     (match split_str " || " obs with
      | [results; before; after] ->
        let res = List.map trim (split_str " | " results) in
@@ -112,6 +120,14 @@ let handle_absearch line args obs =
        let gcur = ref g in
        List.iteri (fun i d ->
            let r = List.nth res i in
+           if i = then_at then
+             List.iter (fun m ->
+                 let (h, b) = !gcur in
+                 let ((h1, b1), _) = push_move zt h b m in
+                 gcur := (h1, b1);
+                 sgr := (match !sgr with Some gs -> Some (g_play gs (abs_move m)) | None -> None)) then_moves;
+           let sg = !sgr in
+           let hist = if then_at >= 0 then hist @ then_moves else hist in
            (match List.filter (fun w -> w <> "") (split_on ' ' r) with
             | [halted; nodes; sc; pv; polls; _nw; nafter; writes] ->
               (* model *)
@@ -129,6 +145,15 @@ let handle_absearch line args obs =
                  let v = spec_value c sgame d true in
                  let rsc = parse_score sc in
                  if v.sty = MateInX || v.sty = Inf || v.sty = NegInf then bump "search/mate-value";
+                 if full_window && c.tt <> "none" && hist <> [] then begin
+                   (* a table shared across a game with repetitions: stored values may legitimately be stale
+                      (excluded by C11), but a position at which a draw can be claimed is worth 0 whatever the
+                      table says, so a root with such a successor is worth at least 0 *)
+                   bump "search/table-with-history";
+                   let kids = List.map (fun sm -> g_play sgame sm) (spec_legal sgame.g_pos sgame.g_turn) in
+                   if d >= 1 && List.exists (fun k -> drawn_here k) kids && lt rsc zero_score then
+                     report_spec ~key:"prop=C13" line (Printf.sprintf "search#%d depth %d: returned %s although a move leads to a position at which a draw can be claimed (worth 0)" i d sc)
+                 end else
                  if full_window then begin
                    bump "search/full-window";
                    let prop = if c.tt = "none" then "prop=C03" else "prop=C11" in
@@ -163,7 +188,7 @@ let handle_absearch line args obs =
               if nafter <> "0" then report_spec ~key:"prop=C12" line (Printf.sprintf "search#%d: %s table writes after cancellation" i nafter)
             | _ -> failwith ("absearch: bad result " ^ r))) c.depths;
        if not (same_state before after) then
-         report_spec ~key:"prop=C03" line (Printf.sprintf "board not handed back in the state it was received: before [%s] after [%s]" before after)
+         report_spec ~key:(if c.cancel >= 0 then "prop=C12" else "prop=C03") line (Printf.sprintf "board not handed back in the state it was received: before [%s] after [%s]" before after)
      | _ -> failwith "absearch: bad obs")
   | _ -> failwith ("bad absearch line: " ^ short line)
 
